@@ -119,6 +119,10 @@ func checkC04(c *Check) {
 	c.Explanation = "C04 (structural clauses): in the tree listener every store of a fresh (empty) container into a container field of the shared module tree (Module.Apps, Application.Types/Endpoints/Views/Wrapped/Attrs/Mixin2, Type.Attrs, Endpoint.Attrs/Stmt/Param, AttrDefs) is control-dependent on that same location being nil, and every insertion of a freshly allocated element into Apps/Types/Endpoints/Views is control-dependent on a failed look-up of the same key — otherwise re-opening a declaration in another block or file discards what the earlier block declared; the kinds that are replaced on re-declaration by design are listed as exceptions, one per callback; one listener (hence one module) is walked over every file of the closure and its module is what the compile returns; when a type is re-opened the field map bound to the listener is the existing one. Independence from block order and import order is not decided."
 	c.Assumptions = append(c.Assumptions, "s.currentApp()/typemap accessors return the same object within one callback")
 	_ = p.Pkg(parsePkg)
+	walkEveryFile(c, "WALK-EVERY-FILE")
+	c.Counts["constant_trim_cutsets"] = pathCutsets(c, "PATH-CUTSET", func(pk string) bool {
+		return pk == repoMod+"/pkg/parse" || pk == repoMod+"/pkg/syslutil" || pk == repoMod+"/pkg/loader" || pk == repoMod+"/pkg/mod" || pk == repoMod+"/pkg/importer"
+	})
 	nC, nE := 0, 0
 	for _, f := range p.RepoFuncs() {
 		if !isListenerCode(p, f) {
@@ -928,4 +932,216 @@ func freeVarBoundTo(fv *ssa.FreeVar, pred func(ssa.Value) bool) bool {
 		good = false
 	})
 	return n > 0 && good
+}
+
+// walkEveryFile (WALK-EVERY-FILE): the model says what *every* file of the
+// closure declares only if every round of the per-file loop hands its file to the
+// shared listener (a tree walk) or merges the module decoded from it. In the
+// functions the module-returning parse function is made of (itself and the steps
+// of pkg/parse it calls), every loop that contains such an effect is examined:
+// each way back to the loop header must pass the effect (leaving the loop with an
+// error is another matter), and when the effect sits in a step called from the
+// loop, each success return of that step must pass it. One obligation per way
+// round / per return, named by the nearest test that leads to it.
+func walkEveryFile(c *Check, rule string) {
+	p := c.P
+	pkg := repoMod + "/pkg/parse"
+	direct := func(cl ssa.CallInstruction) bool {
+		o := calleeObj(cl)
+		if o == nil || o.Pkg() == nil {
+			return false
+		}
+		if o.Name() == "Walk" && strings.HasSuffix(o.Pkg().Path(), "/antlr") {
+			// with the model-building listener
+			args := cl.Common().Args
+			return len(args) >= 2 && typeIs(stripValue(args[len(args)-2]).Type(), pkg, "TreeShapeListener")
+		}
+		return strings.Contains(o.Pkg().Path(), "mergo") && strings.HasPrefix(o.Name(), "Merge")
+	}
+	// eff: the instruction performs the effect — directly, through a closure it
+	// is handed, or through a step of the package
+	eff := func(i ssa.Instruction) bool {
+		cl, ok := i.(ssa.CallInstruction)
+		if !ok {
+			return false
+		}
+		if direct(cl) {
+			return true
+		}
+		for _, a := range cl.Common().Args {
+			if mc, ok := a.(*ssa.MakeClosure); ok {
+				if fn, ok := mc.Fn.(*ssa.Function); ok && reachesCall(fn, pkg, 3, direct) {
+					return true
+				}
+			}
+		}
+		sc := staticCallee(cl)
+		return sc != nil && fnPkgPath(sc) == pkg && reachesCall(sc, pkg, 3, direct)
+	}
+	when := func(b *ssa.BasicBlock) string {
+		for d := b; d != nil; d = d.Idom() {
+			if id := d.Idom(); id != nil {
+				if iff, ok := id.Instrs[len(id.Instrs)-1].(*ssa.If); ok {
+					side := "false"
+					if id.Succs[0] == d || id.Succs[0].Dominates(d) {
+						side = "true"
+					}
+					return "when " + condText(iff.Cond) + " is " + side
+				}
+			}
+		}
+		return "unconditionally"
+	}
+	nLoops := 0
+	judgedStep := map[*ssa.Function]bool{}
+	for _, f := range p.RepoFuncs() {
+		if fnPkgPath(f) != pkg || f.Parent() != nil || moduleResultIndex(f.Signature) < 0 {
+			continue
+		}
+		hasListener := false
+		for _, prm := range f.Params {
+			if typeIs(prm.Type(), pkg, "TreeShapeListener") && prm != f.Params[0] {
+				hasListener = true
+			}
+		}
+		if !hasListener {
+			continue
+		}
+		// f and the steps it reaches
+		steps := []*ssa.Function{f}
+		depth := map[*ssa.Function]int{f: 0}
+		for k := 0; k < len(steps); k++ {
+			eachCall(steps[k], func(cl ssa.CallInstruction) {
+				sc := staticCallee(cl)
+				if sc == nil || fnPkgPath(sc) != pkg || len(sc.Blocks) == 0 || sc.Parent() != nil || depth[steps[k]] >= 3 {
+					return
+				}
+				if _, seen := depth[sc]; !seen && reachesCall(sc, pkg, 3, direct) {
+					depth[sc] = depth[steps[k]] + 1
+					steps = append(steps, sc)
+				}
+			})
+		}
+		for _, g := range steps {
+			// loop headers of g whose loop contains an effect
+			for _, h := range g.Blocks {
+				loop := map[*ssa.BasicBlock]bool{}
+				var latches []*ssa.BasicBlock
+				for _, pr := range h.Preds {
+					if h.Dominates(pr) {
+						latches = append(latches, pr)
+					}
+				}
+				if len(latches) == 0 {
+					continue
+				}
+				// natural loop of h
+				loop[h] = true
+				stack := append([]*ssa.BasicBlock{}, latches...)
+				for len(stack) > 0 {
+					x := stack[len(stack)-1]
+					stack = stack[:len(stack)-1]
+					if loop[x] {
+						continue
+					}
+					loop[x] = true
+					stack = append(stack, x.Preds...)
+				}
+				var effs []ssa.Instruction
+				for b := range loop {
+					for _, i := range b.Instrs {
+						if eff(i) {
+							effs = append(effs, i)
+						}
+					}
+				}
+				if len(effs) == 0 {
+					continue
+				}
+				// only the loop nearest to the effect
+				inner := true
+				for _, e := range effs {
+					if el := enclosingLoop(e.Block()); el != nil && len(el) < len(loop) {
+						inner = false
+					}
+				}
+				if !inner {
+					continue
+				}
+				nLoops++
+				nBad := 0
+				for _, l := range latches {
+					last := l.Instrs[len(l.Instrs)-1]
+					// from the top of the round to this way back, never leaving the loop
+					if _, bad := reachAvoiding(h.Instrs[0], func(i ssa.Instruction) bool { return i == last }, func(i ssa.Instruction) bool {
+						return eff(i) || !loop[i.Block()]
+					}); !bad {
+						continue
+					}
+					nBad++
+					w := when(l)
+					at := last.Pos()
+					if iff, ok := last.(*ssa.If); ok {
+						side := "false"
+						if l.Succs[0] == h {
+							side = "true"
+						}
+						w = "when " + condText(iff.Cond) + " is " + side
+						if v, ok := iff.Cond.(ssa.Instruction); ok {
+							at = v.Pos()
+						}
+					}
+					c.Flagf(rule, fmt.Sprintf("%s|file neither walked nor merged %s", fnName(g), w), p.pos(at),
+						"a round of the per-file loop can go on to the next file without walking or merging this one (effect at %s): what the file declares is missing from the model", p.pos(effs[0].Pos()))
+				}
+				if nBad == 0 {
+					c.Okf(rule, fmt.Sprintf("%s|every round walks or merges its file", fnName(g)), p.pos(h.Instrs[0].Pos()), "every way back to the head of the per-file loop passes the tree walk or the merge")
+				}
+				// steps called from the loop that hold the effect
+				for _, e := range effs {
+					cl, ok := e.(ssa.CallInstruction)
+					if !ok || direct(cl) {
+						continue
+					}
+					s := staticCallee(cl)
+					if s == nil || fnPkgPath(s) != pkg || judgedStep[s] || !reachesCall(s, pkg, 3, direct) {
+						continue
+					}
+					judgedStep[s] = true
+					ei := errorResultIndex(s.Signature)
+					nBadRet := 0
+					for _, b := range s.Blocks {
+						ret, ok := b.Instrs[len(b.Instrs)-1].(*ssa.Return)
+						if !ok || b == s.Recover {
+							continue
+						}
+						if ei >= 0 {
+							vals, cell := returnValues(ret)
+							if cell[ei] || !isNilConst(vals[ei]) {
+								// an error, or the result of the guarded walk itself
+								if rv, ok := vals[ei].(*ssa.Call); !ok || !eff(rv) {
+									continue
+								}
+								continue
+							}
+						}
+						entry := s.Blocks[0].Instrs[0]
+						if _, bad := reachAvoiding(entry, func(i ssa.Instruction) bool { return i == ssa.Instruction(ret) }, eff); !bad || eff(entry) {
+							continue
+						}
+						nBadRet++
+						c.Flagf(rule, fmt.Sprintf("%s|file neither walked nor merged %s", fnName(s), when(b)), p.pos(ret.Pos()),
+							"this success return of the per-file step is reachable without walking or merging the file")
+					}
+					if nBadRet == 0 {
+						c.Okf(rule, fmt.Sprintf("%s|every success walks or merges the file", fnName(s)), p.pos(s.Pos()), "every success return of the per-file step passes the tree walk or the merge")
+					}
+				}
+			}
+		}
+	}
+	c.Counts["per_file_loops"] = nLoops
+	if nLoops == 0 {
+		c.Undecidedf(rule, "per-file loop", "-", "no loop that walks or merges the files of the closure found in the parse function or its steps: unresolved anchor")
+	}
 }
